@@ -69,6 +69,8 @@ elem_int!(i8, 1);
 elem_int!(i16, 2);
 elem_int!(i32, 4);
 elem_int!(i64, 8);
+elem_int!(i128, 16);
+elem_int!(u128, 16);
 macro_rules! elem_float {
     ($t:ty, $bits:ty, $w:expr) => {
         impl Elem for $t {
@@ -111,10 +113,11 @@ fn cbytes_of<T: Elem>(xs: &[Complex<T>]) -> Vec<u8> {
 }
 
 /// (class, code, width) of the element types the property quantifies over.
-const TYPES: [(u8, u8, usize); 12] = [
+const TYPES: [(u8, u8, usize); 14] = [
     (0, 0, 2), (0, 1, 2), (0, 2, 4), (0, 3, 8),
     (1, 0, 1), (1, 1, 2), (1, 2, 4), (1, 3, 8),
     (2, 0, 1), (2, 1, 2), (2, 2, 4), (2, 3, 8),
+    (1, 4, 16), (2, 4, 16),
 ];
 
 macro_rules! dispatch {
@@ -128,6 +131,8 @@ macro_rules! dispatch {
             (1, 1) => $f::<i16>($($a),*),
             (1, 2) => $f::<i32>($($a),*),
             (1, 3) => $f::<i64>($($a),*),
+            (1, 4) => $f::<i128>($($a),*),
+            (2, 4) => $f::<u128>($($a),*),
             (2, 0) => $f::<u8>($($a),*),
             (2, 1) => $f::<u16>($($a),*),
             (2, 2) => $f::<u32>($($a),*),
@@ -147,27 +152,27 @@ fn cls_of(e: &repe::RepeError) -> String {
     err_class(e)
 }
 
-/// An 8-aligned backing store holding `frame` at byte offset `mis`.
+/// A 16-aligned backing store (`Vec<u128>`) holding `frame` at byte offset `mis`.
 struct Placed {
-    backing: Vec<u64>,
+    backing: Vec<u128>,
     mis: usize,
     len: usize,
 }
 impl Placed {
     fn new(frame: &[u8], mis: usize) -> Placed {
-        let mut backing = vec![0u64; (mis + frame.len()) / 8 + 2];
-        // SAFETY: the Vec<u64> is 8-aligned and large enough; u8 has no invalid bit patterns.
-        let bytes = unsafe { std::slice::from_raw_parts_mut(backing.as_mut_ptr() as *mut u8, backing.len() * 8) };
+        let mut backing = vec![0u128; (mis + frame.len()) / 16 + 2];
+        // SAFETY: the Vec<u128> is 16-aligned and large enough; u8 has no invalid bit patterns.
+        let bytes = unsafe { std::slice::from_raw_parts_mut(backing.as_mut_ptr() as *mut u8, backing.len() * 16) };
         bytes[mis..mis + frame.len()].copy_from_slice(frame);
         Placed { backing, mis, len: frame.len() }
     }
     fn bytes(&self) -> &[u8] {
-        let all = unsafe { std::slice::from_raw_parts(self.backing.as_ptr() as *const u8, self.backing.len() * 8) };
+        let all = unsafe { std::slice::from_raw_parts(self.backing.as_ptr() as *const u8, self.backing.len() * 16) };
         &all[self.mis..self.mis + self.len]
     }
     fn contains(&self, p: usize) -> bool {
         let lo = self.backing.as_ptr() as usize;
-        p >= lo && p < lo + self.backing.len() * 8
+        p >= lo && p < lo + self.backing.len() * 16
     }
 }
 
@@ -213,6 +218,8 @@ fn run_handler(h: &Arc<dyn HandlerErased>, seen: &Arc<Mutex<Seen>>, path: &str, 
                 HOut::Odd(format!("ok response but closure ran {} times", s.calls))
             } else if resp.header.body_format != 1 {
                 HOut::Odd(format!("ok response with body format {}", resp.header.body_format))
+            } else if resp.header.id != view.map(|v| v.header.id).or(owned.map(|m| m.header.id)).unwrap_or(0) || !resp.query.is_empty() || resp.header.notify != 0 {
+                HOut::Odd("response does not carry the request id / has a query / is a notify".into())
             } else {
                 HOut::Called { resp_body: resp.body.clone(), seen: (s.n, s.payload), ptr: s.ptr }
             }
@@ -494,7 +501,7 @@ fn op_aenc<T: Elem>(c: &mut Ctx, cls: u8, code: u8, qlen: usize, n: usize, paylo
 }
 
 fn op_adec<T: Elem>(c: &mut Ctx, addr: usize, body: &[u8]) -> (String, bool) {
-    let placed = Placed::new(body, addr % 8);
+    let placed = Placed::new(body, addr % 16);
     let b = placed.bytes();
     let owned = catch(|| beve::read_aligned_typed_slice::<T>(b));
     let borrowed = catch(|| beve::read_aligned_typed_slice_ref::<T>(b).map(|s| (s.as_ptr() as usize, s.len(), bytes_of(s))));
@@ -743,6 +750,24 @@ fn op_wrong<T: Elem>(c: &mut Ctx, body: &[u8], form: &str) -> (String, bool) {
     (format!("{} {} {}", c.idx, hex(body), s), true)
 }
 
+/// A body of the decoder's *own* element type in each wire form: the three forms are distinct types.
+fn op_form<T: Elem>(c: &mut Ctx, body: &[u8], form: &str) -> (String, bool) {
+    let (s, acc) = all_decoders::<T>(1, body);
+    for (name, accepted) in acc {
+        let expect = match (form, name) {
+            ("regular", "dec") | ("regular", "slice") | ("regular", "ref") => true,
+            ("aligned", "ref") => true,
+            ("complex", "cdec") => true,
+            _ => false,
+        };
+        if accepted != expect {
+            c.fail(&format!("numeric.form.{}.{}_{}", form, name, if accepted { "accepted" } else { "rejected" }),
+                   format!("a {} body of the decoder's own element type was {} by {}", form, if accepted { "accepted" } else { "rejected" }, name));
+        }
+    }
+    (format!("{} {} {}", c.idx, hex(body), s), true)
+}
+
 fn op_wrongfmt<T: Elem>(c: &mut Ctx, fmt: u16, body: &[u8]) -> (String, bool) {
     let (s, acc) = all_decoders::<T>(fmt, body);
     for (name, accepted) in acc {
@@ -919,6 +944,8 @@ struct Net {
     sync_client: [repe::Client; 2],
     async_client: [repe::AsyncClient; 2],
     /// clients connected to the capture peer, and the frames it recorded
+    /// WebSocket server (same router) and its client: only the serde helper exists there
+    ws_client: repe::websocket_client::WebSocketClient,
     cap_sync: repe::Client,
     cap_async: repe::AsyncClient,
     captured: Mutex<std::sync::mpsc::Receiver<Vec<u8>>>,
@@ -1019,10 +1046,20 @@ fn start_net() -> Net {
     });
     let sync_client = [repe::Client::connect(&a0).unwrap(), repe::Client::connect(&a1).unwrap()];
     let async_client = rt.block_on(async { [repe::AsyncClient::connect(&a0).await.unwrap(), repe::AsyncClient::connect(&a1).await.unwrap()] });
+    let ws_url = rt.block_on(async {
+        let l = tokio::net::TcpListener::bind("127.0.0.1:0").await.unwrap();
+        let a = l.local_addr().unwrap();
+        let r = make_router();
+        tokio::spawn(async move {
+            let _ = repe::websocket_server::WebSocketServer::new(r).serve_listener(l, "/repe").await;
+        });
+        format!("ws://{}/repe", a)
+    });
+    let ws_client = rt.block_on(async { repe::websocket_client::WebSocketClient::connect(&ws_url).await.unwrap() });
     let (ca, rx) = start_capture();
     let cap_sync = repe::Client::connect(&ca).unwrap();
     let cap_async = rt.block_on(async { repe::AsyncClient::connect(&ca).await.unwrap() });
-    Net { rt, addr: [a0, a1], sync_client, async_client, cap_sync, cap_async, captured: Mutex::new(rx) }
+    Net { rt, addr: [a0, a1], sync_client, async_client, ws_client, cap_sync, cap_async, captured: Mutex::new(rx) }
 }
 
 #[allow(clippy::too_many_arguments)]
@@ -1038,6 +1075,8 @@ fn op_net<T: Elem>(c: &mut Ctx, server: usize, client: &str, kind: &str, route: 
         ("async", "bulk") => net.rt.block_on(net.async_client[server].call_typed_slice_with_timeout(&path, &xs, t)),
         ("async", "aligned") => net.rt.block_on(net.async_client[server].call_typed_slice_aligned_with_timeout(&path, &xs, t)),
         ("async", "serde") => net.rt.block_on(net.async_client[server].call_typed_beve_with_timeout(&path, &xs, t)),
+        // server index 2: the WebSocket server, reached by the WebSocket client's serde helper
+        ("ws", "serde") => net.rt.block_on(net.ws_client.call_typed_beve_with_timeout(&path, &xs, t)),
         _ => panic!("unknown client kind"),
     };
     let _ = &net.addr;
@@ -1091,6 +1130,13 @@ fn op_cap<T: Elem>(c: &mut Ctx, client: &str, kind: &str, cls: u8, code: u8, ple
         ("async", "bulk") => net.rt.block_on(net.cap_async.call_typed_slice_with_timeout(&path, &xs, t)),
         ("async", "aligned") => net.rt.block_on(net.cap_async.call_typed_slice_aligned_with_timeout(&path, &xs, t)),
         ("async", "serde") => net.rt.block_on(net.cap_async.call_typed_beve_with_timeout(&path, &xs, t)),
+        // the entry points without a timeout (the capture peer always answers)
+        ("syncp", "bulk") => net.cap_sync.call_typed_slice(&path, &xs),
+        ("syncp", "aligned") => net.cap_sync.call_typed_slice_aligned(&path, &xs),
+        ("syncp", "serde") => net.cap_sync.call_typed_beve(&path, &xs),
+        ("asyncp", "bulk") => net.rt.block_on(net.cap_async.call_typed_slice(&path, &xs)),
+        ("asyncp", "aligned") => net.rt.block_on(net.cap_async.call_typed_slice_aligned(&path, &xs)),
+        ("asyncp", "serde") => net.rt.block_on(net.cap_async.call_typed_beve(&path, &xs)),
         _ => panic!("unknown client kind"),
     };
     let frame = match rx.recv_timeout(std::time::Duration::from_secs(20)) {
@@ -1181,7 +1227,10 @@ fn op_cap<T: Elem>(c: &mut Ctx, client: &str, kind: &str, cls: u8, code: u8, ple
 fn exec(out: &mut Out, line: &str, net: Option<&Net>) {
     let w = words(line);
     let idx = w.get(1).copied().unwrap_or("?");
-    out.begin(line);
+    // panics are caught per op; only the socket ops (which can hang the process) leave a marker file
+    if matches!(w[0], "net" | "cap") {
+        out.begin(line);
+    }
     let mut c = Ctx { out: &mut *out, line, idx, net };
     let u = |s: &str| -> usize { s.parse().expect("number in op line") };
     let ty = |a: &str, b: &str| -> (u8, u8) { (a.parse().unwrap(), b.parse().unwrap()) };
@@ -1242,6 +1291,13 @@ fn exec(out: &mut Out, line: &str, net: Option<&Net>) {
             let form = w[6];
             let body = dispatch!(c2, k2, encode_as(form, &p));
             dispatch!(cls, code, op_wrong(&mut c, &body, form))
+        }
+        "form" => {
+            let (cls, code) = ty(w[2], w[3]);
+            let p = unhex(w[6]).unwrap();
+            let form = w[4];
+            let body = dispatch!(cls, code, encode_as(form, &p));
+            dispatch!(cls, code, op_form(&mut c, &body, form))
         }
         "wrongfmt" => {
             let (cls, code) = ty(w[2], w[3]);
@@ -1330,6 +1386,20 @@ fn gen_payload(r: &mut Rng, cls: u8, code: u8, w: usize, n: usize, scalars_per_e
     let mut out = Vec::with_capacity(n * w * scalars_per_elem);
     // large vectors: mostly random bits with specials sprinkled in
     for i in 0..n * scalars_per_elem {
+        if w == 16 {
+            // 128-bit integers: boundary patterns across both halves
+            let (lo, hi) = match r.below(7) {
+                0 => (0, 0),
+                1 => (u64::MAX, u64::MAX),
+                2 => (0, 1u64 << 63),
+                3 => (u64::MAX, u64::MAX >> 1),
+                4 => (1, 0),
+                _ => (r.next(), r.next()),
+            };
+            out.extend_from_slice(&lo.to_le_bytes());
+            out.extend_from_slice(&hi.to_le_bytes());
+            continue;
+        }
         let v = if n > 256 && i % 17 != 0 { r.next() } else { gen_bits(r, cls, code, w) };
         out.extend_from_slice(&v.to_le_bytes()[..w]);
     }
@@ -1459,7 +1529,7 @@ fn generate(seed: u64, thorough: bool) -> Vec<String> {
     }
     if thorough {
         // every length 0..4096, element type rotating with a random phase
-        let phase = g.r.below(12) as usize;
+        let phase = g.r.below(14) as usize;
         for n in 0..=4096usize {
             let (cls, code, w) = TYPES[(n + phase) % 12];
             gen_vector(&mut g, cls, code, w, n, false);
@@ -1502,7 +1572,8 @@ fn generate(seed: u64, thorough: bool) -> Vec<String> {
                 let p = gen_payload(&mut g.r, cls, code, w, n, 1);
                 push!(g, "aenc", "{} {} {} {} {}", cls, code, qlen, n, hex(&p));
                 // the frame at receive-buffer misalignments 0..7
-                let miss: Vec<usize> = if thorough || qlen % 8 == (cls as usize * 4 + code as usize) % 8 { (0..8).collect() } else { vec![g.r.below(8) as usize, 0] };
+                let top = if w == 16 { 16 } else { 8 };
+                let miss: Vec<usize> = if thorough || qlen % 8 == (cls as usize * 4 + code as usize) % 8 { (0..top).collect() } else { vec![g.r.below(top as u64) as usize, 0] };
                 for mis in miss {
                     let wire = g.r.below(2);
                     push!(g, "aref", "{} {} {} {} 0 {} {} {}", cls, code, mis, qlen, wire, n, hex(&p));
@@ -1623,6 +1694,61 @@ fn generate(seed: u64, thorough: bool) -> Vec<String> {
             }
         }
     }
+    // the decoder's own element type in each wire form (regular / aligned / complex are distinct types)
+    for (cls, code, w) in TYPES {
+        for form in ["regular", "aligned", "complex"] {
+            for n in [0usize, g.r.range(1, 9) as usize] {
+                let sp = if form == "complex" { 2 } else { 1 };
+                let p = gen_payload(&mut g.r, cls, code, w, n, sp);
+                push!(g, "form", "{} {} {} {} {}", cls, code, form, n, hex(&p));
+            }
+        }
+    }
+    // every SIZE form on the decoding side: a count written in each width that can hold it (canonical
+    // or not), and counts at the width boundaries 2^6, 2^14, 2^30, 2^62 declared over a short payload
+    for (cls, code, w) in [(2u8, 0u8, 1usize), (0, 3, 8), (1, 4, 16), (0, 0, 2)] {
+        let tag = (code << 5) | (cls << 3) | 4;
+        let size_form = |n: u64, form: usize| -> Vec<u8> {
+            let extra = [0usize, 1, 3, 7][form];
+            let mut v = vec![(((n & 0x3f) as u8) << 2) | form as u8];
+            v.extend_from_slice(&(n >> 6).to_le_bytes()[..extra]);
+            v
+        };
+        let mut counts: Vec<u64> = vec![0, 1, 2, 63, 64, 65, 255, 256];
+        for e in [6u32, 14, 30, 62] {
+            for d in [-1i64, 0, 1] {
+                counts.push(((1u64 << e) as i64 + d) as u64);
+            }
+        }
+        counts.push(u64::MAX >> 2);
+        for n in counts {
+            for form in 0..4usize {
+                let cap = [6u32, 14, 30, 62][form];
+                if n >> cap != 0 {
+                    continue;
+                }
+                let have = (n as usize).min(300);
+                let p = gen_payload(&mut g.r, cls, code, w, have, 1);
+                let mut regular = vec![tag];
+                regular.extend_from_slice(&size_form(n, form));
+                regular.extend_from_slice(&p);
+                let mut aligned = vec![0x5C, tag];
+                aligned.extend_from_slice(&size_form(n, form));
+                let pad = g.r.below(w as u64) as u8;
+                aligned.push(pad);
+                aligned.extend(std::iter::repeat(0u8).take(pad as usize));
+                aligned.extend_from_slice(&p);
+                let mut complex = vec![0x1E, (code << 5) | (cls << 3) | 1];
+                complex.extend_from_slice(&size_form(n, form));
+                complex.extend_from_slice(&gen_payload(&mut g.r, cls, code, w, have.min(40), 2));
+                push!(g, "dec", "{} {} 1 {}", cls, code, hex(&regular));
+                push!(g, "slice", "{} {} 1 2 {}", cls, code, hex(&regular));
+                push!(g, "ref", "{} {} 1 {} 2 {}", cls, code, g.r.below(16), hex(&aligned));
+                push!(g, "adec", "{} {} {} {}", cls, code, g.r.below(16), hex(&aligned));
+                push!(g, "cdec", "{} {} 1 {}", cls, code, hex(&complex));
+            }
+        }
+    }
     for (cls, code, w) in TYPES {
         for fmt in [0u16, 2, 3, 4, 255, 257, 65535] {
             let n = g.r.below(6) as usize;
@@ -1650,9 +1776,9 @@ fn generate(seed: u64, thorough: bool) -> Vec<String> {
         push!(g, "stream", "0 3 1 0 0 1 {} {} {}", hex(b"/big"), n, hex(&p));
     }
     // every query length 0..64 (element type rotating), each run also into the short-write sinks
-    let phase = g.r.below(12) as usize;
+    let phase = g.r.below(14) as usize;
     for qlen in 0..=64usize {
-        let (cls, code, w) = TYPES[(qlen + phase) % 12];
+        let (cls, code, w) = TYPES[(qlen + phase) % 14];
         let complex = qlen % 5 == 4;
         let n = g.r.below(6) as usize;
         let p = gen_payload(&mut g.r, cls, code, w, n, if complex { 2 } else { 1 });
@@ -1696,6 +1822,15 @@ fn generate(seed: u64, thorough: bool) -> Vec<String> {
         let plen = *g.r.pick(&PLENS[1..]);
         push!(g, "net", "{} {} {} {} {} {} {} {} {}", server, client, kind, route, cls, code, plen, n, hex(&p));
     }
+    // the WebSocket client's serde helper against the three routes on the WebSocket server
+    for route in ["slice", "ref", "typed"] {
+        for round in 0..(if thorough { 20 } else { 4 }) {
+            let (cls, code, w) = *g.r.pick(&TYPES);
+            let n = if round == 0 { 0 } else { g.r.range(1, 300) as usize };
+            let p = gen_payload(&mut g.r, cls, code, w, n, 1);
+            push!(g, "net", "2 ws serde {} {} {} {} {} {}", route, cls, code, *g.r.pick(&PLENS[1..]), n, hex(&p));
+        }
+    }
     // the shortest path and a body spanning many TCP segments, borrowing route
     for server in 0..2 {
         let n = if thorough { 200_000 } else { 40_000 };
@@ -1717,6 +1852,12 @@ fn generate(seed: u64, thorough: bool) -> Vec<String> {
                 let n = match g.r.below(5) { 0 => 0, 1 => g.r.range(64, 90), _ => g.r.range(1, 63) } as usize;
                 let p = gen_payload(&mut g.r, cls, code, w, n, 1);
                 push!(g, "cap", "{} aligned {} {} {} {} {}", client, cls, code, plen, n, hex(&p));
+                if thorough || plen % 4 == (code as usize) % 4 {
+                    // the entry point without a timeout
+                    push!(g, "cap", "{}p aligned {} {} {} {} {}", client, cls, code, plen, n, hex(&p));
+                    let kind = if plen % 8 < 4 { "bulk" } else { "serde" };
+                    push!(g, "cap", "{}p {} {} {} {} {} {}", client, kind, cls, code, plen, n, hex(&p));
+                }
                 if thorough || plen % 6 == (cls as usize + code as usize) % 6 {
                     let kind = if plen % 2 == 0 { "bulk" } else { "serde" };
                     let n = if g.r.chance(1, 6) { 0 } else { n };
